@@ -1,6 +1,7 @@
 package props
 
 import (
+	"bytes"
 	"crypto"
 	"crypto/ecdsa"
 	"crypto/sha256"
@@ -591,8 +592,9 @@ type c20EntropyCase struct {
 	Entry  string         `json:"entry"` // Sign1, SignMessage2 (fault hits the second signer), Countersign0
 	Limit  int            `json:"limit"`
 	Short  bool           `json:"short"`
-	Signer string         `json:"signer"`        // builtin, stub-error, stub-partial, stub-empty
-	EOF    bool           `json:"eof,omitempty"` // the entropy source ends with io.EOF
+	Signer string         `json:"signer"`                // builtin, stub-error, stub-partial, stub-empty
+	EOF    bool           `json:"eof,omitempty"`         // the entropy source ends with io.EOF
+	PayLen int            `json:"payload_len,omitempty"` // 0: the short default payload
 }
 
 func checkC20Entropy(c c20EntropyCase) error {
@@ -696,8 +698,11 @@ func checkC20EntropyInner(c c20EntropyCase) error {
 	// a randomised scheme cannot have signed when the source never delivered a single byte
 	mustFail := c.Limit == 0 && (c.Key.Family() != "ed" && (c.Signer == "builtin" || c.Signer == "cose-key-inconsistent-pair") || c.Signer == "opaque-key-reads-entropy")
 	payload := []byte("entropy payload")
+	if c.PayLen > 0 {
+		payload = bytes.Repeat([]byte{0xa5}, c.PayLen)
+	}
 	hdr := cose.Headers{Protected: cose.ProtectedHeader{int64(1): alg}}
-	desc := fmt.Sprintf("%s/%s/%s/limit=%d/short=%v/eof=%v", c.Entry, refcose.AlgName(c.Key.Alg), c.Signer, c.Limit, c.Short, c.EOF)
+	desc := fmt.Sprintf("%s/%s/%s/limit=%d/short=%v/eof=%v/payload=%d", c.Entry, refcose.AlgName(c.Key.Alg), c.Signer, c.Limit, c.Short, c.EOF, len(payload))
 	outcome := "error"
 	switch c.Entry {
 	case "Signer.Sign":
@@ -894,6 +899,15 @@ func TestC20_Entropy(t *testing.T) {
 				c := c20EntropyCase{Key: km, Entry: entry, Limit: lim, Signer: "opaque-key-reads-entropy", EOF: lim == 4}
 				stats.Eval()
 				judge(t, "c20entropy", c, checkC20Entropy)
+				for _, pl := range []int{65536, 1 << 20} {
+					c.PayLen = pl
+					stats.Eval()
+					judge(t, "c20entropy", c, checkC20Entropy)
+					b := c
+					b.Signer, b.Limit = "builtin", lim
+					stats.Eval()
+					judge(t, "c20entropy", b, checkC20Entropy)
+				}
 			}
 			for _, sgn := range []string{"stub-error", "stub-partial", "stub-empty", "stub-fails-once", "stub-panics", "stub-oversized-der", "stub-truncated-der-2n", "stub-truncated-der", "opaque-trailing-der", "cose-key-inconsistent-pair"} {
 				if km.Family() != "ec" && (sgn == "stub-oversized-der" || strings.HasPrefix(sgn, "stub-truncated-der")) {
@@ -909,6 +923,14 @@ func TestC20_Entropy(t *testing.T) {
 				c := c20EntropyCase{Key: km, Entry: entry, Limit: 1 << 20, Signer: sgn}
 				stats.Eval()
 				judge(t, "c20entropy", c, checkC20Entropy)
+				// the same faults with long content (whatever an implementation does differently from some length on)
+				for _, pl := range []int{65535, 65536, 1 << 20} {
+					c.PayLen = pl
+					stats.Eval()
+					stats.Class("entropy/long-content")
+					judge(t, "c20entropy", c, checkC20Entropy)
+				}
+				c.PayLen = 0
 				stats.Sample("failing-crypto-signer", c)
 			}
 		}
